@@ -311,6 +311,36 @@ func Shapes(allDivisions bool) []Shape {
 	return out
 }
 
+// AlienTypes enumerates shapes whose unknown chunk carries a type that
+// differs from "MTrk" (and from "MThd") in exactly one position, or only in
+// case: at every position of a two-track file, with a body that looks like a
+// track.
+func AlienTypes() []Shape {
+	var out []Shape
+	var types []string
+	for _, base := range []string{"MTrk", "MThd"} {
+		for i := 0; i < 4; i++ {
+			for _, c := range []byte{'X', 0x00, base[i] ^ 0x20, 0xFF} {
+				b := []byte(base)
+				if b[i] == c {
+					continue
+				}
+				b[i] = c
+				types = append(types, string(b))
+			}
+		}
+	}
+	types = append(types, "mtrk", "MTRK", "mthd", "krTM", "TrkM")
+	body := []byte{0x00, 0x90, 0x3C, 0x40, 0x00, 0xFF, 0x2F, 0x00}
+	for ti, typ := range types {
+		for pos := 0; pos <= 2; pos++ {
+			out = append(out, Shape{Name: fmt.Sprintf("fmt1/2trk/alien-type-%d@%d", ti, pos), Format: 1, NTracks: 2, Division: 96, SeqTrack: pos % 2,
+				Aliens: []Alien{{pos, typ, body}}})
+		}
+	}
+	return out
+}
+
 // BaseShape is the plain single-track file.
 func BaseShape() Shape {
 	return Shape{Name: "fmt0/1trk/div0060", Format: 0, NTracks: 1, Division: 96}
